@@ -316,6 +316,14 @@ fn numeral_spans(b: &[u8]) -> Vec<(usize, usize)> {
 }
 
 pub fn mutate(rng: &mut Rng, mut b: Vec<u8>) -> Vec<u8> {
+    // a literal of the current source (keyword, magic prefix …) spliced into the otherwise
+    // unchanged document, half of the time as the only change
+    if rng.chance(1, 4) {
+        splice_literal(rng, &mut b);
+        if rng.chance(1, 2) {
+            return b;
+        }
+    }
     let n = rng.range(1, 3);
     for _ in 0..n {
         match rng.below(11) {
@@ -443,6 +451,12 @@ pub fn gen_case(rng: &mut Rng, opt: &str, thorough: bool) -> String {
             let plain = rng.chance(1, 2);
             let r = render(rng, &circ, bin, plain);
             case.data = mutate(rng, r.bytes);
+        }
+        "dict" => {
+            let r = render(rng, &circ, bin, true);
+            let mut b = r.bytes;
+            dict_splice(rng, &mut b);
+            case.data = b;
         }
         "arbitrary" => {
             case.data = arbitrary(rng, bin);
